@@ -358,6 +358,17 @@ def check_memo_key(ctx):
     for p in params:
         ctx.ob("C18.3", site, "$" + p in kk, "memo key contains parameter %s" % p, loc=prog.loc(m, st[-1]["node"]),
                msg="the request cache key %s does not contain parameter %s: requests differing only in %s share one cached answer" % (kk[:120], p, p))
+    # ... and of the parameter VALUES themselves, not of something derived from them (names, hashes, strings): two different requests
+    # whose derived components coincide (every Ensemble member is called "Ensemble") would share one entry
+    comps = list(key) if isinstance(key, (tuple, list)) else [key]
+    for cpt in comps:
+        if not isinstance(cpt, Rat):
+            continue
+        at = cpt.as_atom()
+        pure = at is not None and (at.func.startswith("$") or (at.func in ("call:tuple", "pylist", "ifexp") and not any(
+            a.func.startswith("m:") or a.func in ("call:hash", "call:str", "call:repr", "call:id", "map") or a.func.startswith("attr:") for a in cpt.atoms(deep=True))))
+        ctx.ob("C18.3", site, pure, "memo key component is a parameter value itself (%s)" % str(cpt)[:50], loc=prog.loc(m, st[-1]["node"]),
+               msg="the request cache key contains %s, a quantity derived from a parameter: different requests can collide" % str(cpt)[:100])
     # stored after the last write into the result list
     last_store = max(i for i, e in enumerate(ev.events) if e["kind"] == "store" and e["root"] == "scores") if any(e["kind"] == "store" and e["root"] == "scores" for e in ev.events) else -1
     memo_pos = max(i for i, e in enumerate(ev.events) if e["kind"] == "store" and e["root"] == "self._get_scores_cache")
